@@ -1,7 +1,7 @@
 (* Property C10 — accepted DIDs and DID URLs are canonical, decomposable, free of stray parts.
    Pinned statements only.  Byte strings are lists of N; "did:" = [100;105;100;58], ':' = 58. *)
 From Coq Require Import List NArith Bool.
-From IdV Require Import Lib.Outcome Did.DidParse Proofs.DidProofs.
+From IdV Require Import Lib.Outcome Did.DidParse Proofs.DidProofs Proofs.DidUrlProofs.
 Import ListNotations.
 Open Scope N_scope.
 
@@ -25,6 +25,21 @@ Theorem C10_url_components_wf : forall s u, did_url_parse s = Ok u ->
   /\ (forall q, u_query u = Some q -> exists t, q = 63 :: t /\ t <> [] /\ valid_seg char_query t = true)
   /\ (forall f, u_frag u = Some f -> exists t, f = 35 :: t /\ t <> [] /\ valid_seg char_query t = true).
 Proof. exact did_url_components_wf. Qed.
+(* DID URL, for EVERY byte string without a percent sign (i.e. outside the known class K_pct of the third-party
+   parser): the string form of an accepted value is the input VERBATIM, the DID part is "did:" method ":" id and
+   the components re-concatenate to the input *)
+Theorem C10_url_verbatim_concat : forall s u, K_pct s = false -> did_url_parse s = Ok u ->
+  did_url_to_string u = s
+  /\ u_did u = [100; 105; 100; 58] ++ u_method u ++ [58] ++ u_mid u
+  /\ s = [100; 105; 100; 58] ++ u_method u ++ [58] ++ u_mid u ++ oapp (u_path u) ++ oapp (u_query u) ++ oapp (u_frag u).
+Proof. intros s u K. apply did_url_verbatim. unfold no_pct. unfold K_pct in K. rewrite K. reflexivity. Qed.
+(* no surrounding blanks or control characters are accepted (for EVERY byte string) *)
+Theorem C10_url_trimmed : forall s u, did_url_parse s = Ok u -> trim s = s.
+Proof. exact did_url_trimmed. Qed.
+(* the tree before fix 358acae is refuted: "  did:a:b?q" was accepted and printed differently *)
+Theorem C10_url_unguarded_refuted :
+  exists s u, no_pct s = true /\ did_url_parse_unguarded s = Ok u /\ did_url_to_string u <> s.
+Proof. exact did_url_unguarded_refuted. Qed.
 (* setting a component: accepted values are stored with their delimiter as valid segments;
    otherwise Err (the setter assigns only on Ok, so the value is unchanged) *)
 Theorem C10_set_path_sound : forall v r, set_path v = Ok r ->
@@ -65,3 +80,6 @@ Print Assumptions C10_set_query_sound.
 Print Assumptions C10_set_fragment_sound.
 Print Assumptions C10_pct_swallow_refuted.
 Print Assumptions C10_url_pct_panics_refuted.
+Print Assumptions C10_url_verbatim_concat.
+Print Assumptions C10_url_trimmed.
+Print Assumptions C10_url_unguarded_refuted.
